@@ -145,6 +145,11 @@ def rule_b2(ck, prog):
     lenp = f.params[2]["name"]
     sums = P.summarize(f)
     probs = []
+    alias = K.field_aliases(f, "->arbitrary_remaining")
+
+    def remp(x):
+        pth = x.get("path") or ""
+        return pth.endswith("->arbitrary_remaining") or pth in alias
     refused = accepted = 0
     for ps in sums:
         lt_fact = None
@@ -152,9 +157,9 @@ def rule_b2(ck, prog):
             if isinstance(pol, tuple):
                 continue
             if a.k == "BinaryOperator" and a.get("op") in ("<", ">", "<=", ">=") and \
-                    any((x.get("path") or "").endswith("->arbitrary_remaining") for x in a.walk()) and \
+                    any(remp(x) for x in a.walk()) and \
                     any(x.get("path") == lenp for x in a.walk()):
-                l_is_rem = (a.child(0).strip_all_casts().get("path") or "").endswith("->arbitrary_remaining")
+                l_is_rem = remp(a.child(0).strip_all_casts())
                 op = a["op"]
                 # normalise to remaining < len
                 if l_is_rem:
@@ -184,8 +189,12 @@ def rule_b2(ck, prog):
             if len(writes) != 1:
                 probs.append("an in-range data call performs %d writes" % len(writes))
             # remaining -= len before the write
-            idx_dec = next((i for i, e in enumerate(evs) if e[0] == "store" and (C.store_target(e[1]).get("path") or "").endswith("->arbitrary_remaining")
+            idx_dec = next((i for i, e in enumerate(evs) if e[0] == "store" and remp(C.store_target(e[1]))
                             and e[1].get("op") == "-=" and e[1].child(1).strip_all_casts().get("path") == lenp), None)
+            if idx_dec is not None and (C.store_target(evs[idx_dec][1]).get("path") or "") in alias:
+                # decreased in a local copy: what counts is where the copy is stored back
+                idx_dec = next((i for i, e in enumerate(evs) if i > idx_dec and e[0] == "store" and
+                                (C.store_target(e[1]).get("path") or "").endswith("->arbitrary_remaining")), None)
             idx_wr = next((i for i, e in enumerate(evs) if e[0] == "call" and e[1].get("callee") == "writeData"), None)
             if idx_dec is None:
                 probs.append("the remaining count is not decreased by the data length")
@@ -197,7 +206,7 @@ def rule_b2(ck, prog):
                     probs.append("the number of bytes written is `%s`, not the data length" % wa[2].src)
             incs = [e for e in evs if e[0] == "store" and (C.store_target(e[1]).get("path") or "").endswith("->output_count")]
             zero = [pol for a, pol in ps.facts if not isinstance(pol, tuple) and a.k == "BinaryOperator" and a.get("op") == "==" and
-                    (a.child(0).strip_all_casts().get("path") or "").endswith("->arbitrary_remaining") and C.const_of(a.child(1)) == 0]
+                    remp(a.child(0).strip_all_casts()) and C.const_of(a.child(1)) == 0]
             if not zero:
                 probs.append("an accepting path does not test whether the block is complete")
             elif bool(incs) != zero[-1]:
@@ -205,7 +214,7 @@ def rule_b2(ck, prog):
     # C17-B7: `remaining == 0` after the decrement is also true when no block is open at all (a zero-length call after the
     # block was completed, or with no header): the count must be guarded by something more on every counting path
     def is_rem(x):
-        return (x.strip_all_casts().get("path") or "").endswith("->arbitrary_remaining")
+        return remp(x.strip_all_casts())
 
     def known_guard(a, after_dec):
         mentions_rem = any(is_rem(x) for x in a.walk())
@@ -221,7 +230,7 @@ def rule_b2(ck, prog):
     for ps in sums:
         after_dec, extra, counts = False, 0, False
         for e in ps.events:
-            if e[0] == "store" and (C.store_target(e[1]).get("path") or "").endswith("->arbitrary_remaining"):
+            if e[0] == "store" and remp(C.store_target(e[1])) and e[1].get("op") != "=":
                 after_dec = True
             elif e[0] == "store" and (C.store_target(e[1]).get("path") or "").endswith("->output_count"):
                 counts = True
